@@ -117,12 +117,15 @@ impl Store<Write> {
     }
 
     /// Follow a node.
+    ///
+    /// If the node was blocked, the block is lifted: after this call the node is followed.
     pub fn follow(&mut self, id: &NodeId, alias: Option<&Alias>) -> Result<bool, Error> {
         let mut stmt = self.db.prepare(
             "INSERT INTO `following` (id, alias)
              VALUES (?1, ?2)
              ON CONFLICT DO UPDATE
-             SET alias = ?2 WHERE alias != ?2",
+             SET alias = ?2, policy = 'allow'
+             WHERE alias != ?2 OR policy != 'allow'",
         )?;
 
         stmt.bind((1, id))?;
@@ -133,12 +136,16 @@ impl Store<Write> {
     }
 
     /// Seed a repository.
+    ///
+    /// If the repository was blocked, the block is lifted: after this call the repository is
+    /// seeded with the given scope.
     pub fn seed(&mut self, id: &RepoId, scope: Scope) -> Result<bool, Error> {
         let mut stmt = self.db.prepare(
             "INSERT INTO `seeding` (id, scope)
              VALUES (?1, ?2)
              ON CONFLICT DO UPDATE
-             SET scope = ?2 WHERE scope != ?2",
+             SET scope = ?2, policy = 'allow'
+             WHERE scope != ?2 OR policy != 'allow'",
         )?;
 
         stmt.bind((1, id))?;
@@ -540,6 +547,34 @@ mod test {
             db.follow_policy(&id).unwrap().unwrap().policy,
             Policy::Block
         );
+    }
+
+    #[test]
+    fn test_seed_after_block() {
+        let id = arbitrary::gen::<RepoId>(1);
+        let mut db = Store::open(":memory:").unwrap();
+
+        assert!(db.set_seed_policy(&id, Policy::Block).unwrap());
+        assert!(!db.is_seeding(&id).unwrap());
+        assert!(db.seed(&id, Scope::Followed).unwrap());
+        assert!(db.is_seeding(&id).unwrap());
+        assert_eq!(
+            db.seed_policy(&id).unwrap().unwrap().scope(),
+            Some(Scope::Followed)
+        );
+        assert!(!db.seed(&id, Scope::Followed).unwrap());
+    }
+
+    #[test]
+    fn test_follow_after_block() {
+        let id = arbitrary::gen::<NodeId>(1);
+        let mut db = Store::open(":memory:").unwrap();
+
+        assert!(db.set_follow_policy(&id, Policy::Block).unwrap());
+        assert!(!db.is_following(&id).unwrap());
+        assert!(db.follow(&id, None).unwrap());
+        assert!(db.is_following(&id).unwrap());
+        assert!(!db.follow(&id, None).unwrap());
     }
 
     #[test]
